@@ -312,6 +312,14 @@ def run(ctx):
             lib.correspond(ctx, res, "h_pass", "loader", fl, comp_holds, exe_args=[bfp], per_chunk=60, line_timeout=900,
                            classify=lambda l, i: "face:" + ("fault" if i.startswith(("fault", "CRASH")) else i.split()[0]),
                            rule="gr_make_face_with_ops on %s with one of its five Graphite tables mutated (exact-size buffers), options 0/2/6: NULL or the numbers of the face (glyphs, features, languages, passes per sub-table) must be what the composed model loadFace says" % bf)
+        # the graphics half of read_glyph: TtfUtil's loca / glyf / hmtx look-ups on generated tables (exact-size buffers)
+        gx = []
+        for _ in range(2500 if q else 100000):
+            f, nl, loca, glyf, hmtx, gids = passgen.gen_gfx(r)
+            gx.append("gfx %d %d %s %s %s %s" % (f, nl, loca.hex(), glyf.hex() or "-", hmtx.hex(), ",".join(map(str, gids))))
+        lib.correspond(ctx, res, "h_pass", "loader", gx, comp_holds, exe_args=[str(lib.REPO / "tests" / "fonts" / "small.ttf")], per_chunk=400,
+                       classify=lambda l, i: "gfx:" + ("fault" if i.startswith(("fault", "CRASH")) else "F" if " F" in " " + i else "ok"),
+                       rule="TtfUtil::LocaLookup / GlyfLookup / GlyfBox / HorMetrics as Loader::read_glyph uses them: 1..8 glyphs, short and long loca, empty glyphs, inverted boxes, offsets at and beyond the end of glyf, truncated loca / hmtx, 0..n+1 long metrics; per glyph the bounding box and advance must be the model's")
         exe = lib.build_harness("h_seg")
         fonts, hl, meta = [], [], []
 
